@@ -90,4 +90,38 @@ func init() {
 		DesignRef: "DESIGN.md §6 C05",
 		Technique: technique,
 	})
+	fmtFiles := []string{"evaluator/common.go", "evaluator/gen.go", "evaluator/c06.go"}
+	register(Check{
+		ID: "C06", Title: "Formatting changes nothing but whitespace", Level: "model_checking",
+		Units: []Unit{evalUnit(fmtFiles,
+			Harness{Fn: "ZZC06Corpus", Quick: p("PROP", 6), Thorough: p("PROP", 6), Expect: []string{"corpus-ok", "witness:end"}},
+			Harness{Fn: "ZZC06Gen", Quick: p("PROP", 6, "FD", 1, "FL0", 1, "FL1", 1), Thorough: p("PROP", 6, "FD", 2, "FL0", 1, "FL1", 1), ThoroughBudget: 25 * time.Minute, Expect: []string{"gen-ok", "witness:end"}},
+			Harness{Fn: "ZZC06GenFlat", Quick: p("PROP", 6, "FLAT", 3), Thorough: p("PROP", 6, "FLAT", 4), Expect: []string{"gen-ok", "witness:end"}},
+		)},
+		Assumptions: []string{
+			"inputs: a corpus of 26 hand-written layouts of every syntax form (comments in every position, blank-line runs, multi-line array/map literals, tabs, \\r, missing final newline) and every generated program of the C10 family in a plain and a messy layout (double spaces, tabs, blank-line runs of 1..3, trailing and own-line comments)",
+			"number literals are compared by value and comments by trimmed text (the formatter prints 1.50 as 1.5 and trims comments); identifiers, strings and comment texts come from fixed alphabets",
+		},
+		Outside:   []string{"layouts outside the corpus/generator", "identifier, string and comment contents beyond the alphabets"},
+		LevelText: "exhaustive exploration of the bounded layout space on the real lexer, parser and formatter (Program.Format, format.go, multiline.go) and the evaluator: token sequence of the output equals that of the input, the output is accepted, has the same tree (Program.String) and the same run trace",
+		LevelNote: "trusts the token-sequence comparison in the harness; structural data, the solver is the enumerator",
+		DesignRef: "DESIGN.md §6 C06",
+		Technique: technique,
+	})
+	register(Check{
+		ID: "C07", Title: "Formatting is canonical and idempotent", Level: "model_checking",
+		Units: []Unit{evalUnit(fmtFiles,
+			Harness{Fn: "ZZC06Corpus", Quick: p("PROP", 7), Thorough: p("PROP", 7), Expect: []string{"corpus-ok", "witness:end"}},
+			Harness{Fn: "ZZC06Gen", Quick: p("PROP", 7, "FD", 1, "FL0", 1, "FL1", 1), Thorough: p("PROP", 7, "FD", 2, "FL0", 1, "FL1", 1), ThoroughBudget: 25 * time.Minute, Expect: []string{"gen-ok", "witness:end"}},
+			Harness{Fn: "ZZC06GenFlat", Quick: p("PROP", 7, "FLAT", 3), Thorough: p("PROP", 7, "FLAT", 4), Expect: []string{"gen-ok", "witness:end"}},
+		), mainUnit([]string{"main/c18.go", "main/c07m.go"},
+			Harness{Fn: "ZZC07Check", Expect: []string{"check-ok", "witness:end"}},
+		)},
+		Assumptions: []string{"same inputs as C06; `evy fmt --check` through main.format and fmtCmd.Run on the model file system"},
+		Outside:     []string{"layouts outside the corpus/generator"},
+		LevelText:   "exhaustive exploration of the bounded layout space: fmt(fmt(p)) = fmt(p), whitespace variants of one program give one text, no trailing blanks, no two consecutive blank lines, exactly one final newline, indentation in multiples of four spaces; main.format(checkOnly) returns nil exactly for formatted input",
+		LevelNote:   "trusts the shape predicates in the harness; structural data, the solver is the enumerator",
+		DesignRef:   "DESIGN.md §6 C07",
+		Technique:   technique,
+	})
 }
